@@ -577,6 +577,7 @@ def _node_representer(dumper, node):
             del metadata[f]
 
     metadata = { key: value for key, value in metadata.items() if key not in dumper.exclude_metadata }
+    inherited_by_children = { **parent_metadata, **metadata } # remembered before a flag gets moved from "metadata" into a simple tag below
 
     # try to use simple standard tag rather then encoded metadata
     # this is possible if we only have one special thing to handle
@@ -602,7 +603,7 @@ def _node_representer(dumper, node):
 
     pop = False
     if isinstance(node, ComposedNode):
-        dumper.metadata.append({ **parent_metadata, **metadata })
+        dumper.metadata.append(inherited_by_children)
         pop = True
 
     try:
